@@ -398,8 +398,11 @@ func run(thorough bool) func(shard, shards int, deadline time.Time) *explore.Res
 		res := &explore.Result{Spec: "c12", Outcomes: map[string]int{}, Counters: map[string]int{}, ViolationCounts: map[string]int{}, Exhaustive: true, DeterminismOK: true, Extra: map[string]float64{}}
 		r := &result{res: res, distinct: map[string]string{}}
 		chains := []string{"eth", "tron"}
+		if thorough {
+			chains = scen.AllChains // every bridge module (tron has its own encoding; the others share eth's)
+		}
 		for i, ch := range chains {
-			if i%shards != shard%len(chains) && shards > 1 {
+			if shards > 1 && i%shards != shard {
 				continue
 			}
 			r.checkpoints(ch)
@@ -419,7 +422,10 @@ func init() {
 		Rule:        "checkpoint half: oracle sets (0-3 members), batches (0-3 transfers) and bridge calls (0-2 tokens, data/memo of 0, 1, 32, 33 bytes) with every uint64 field from {0, 1, 2^32-1, 2^63-1, 2^63, 2^64-1} and three gravity ids, for the eth and the tron encoding; fxcore's checkpoint must equal byte for byte the digest of an independent abi.encode implementation written from the argument lists in FxBridgeLogic.sol, and distinct objects must have distinct checkpoints. Confirmation half (real keeper, eth and tron): every candidate (signing key in {oracle 1, oracle 2, unregistered}) x (digest in {exact, mutated object, other gravity id, other kind}) x (chain prefix) x (encoding v=0/1, v=27/28, malleated s, 64, 66, 0 bytes) x (bridger) x (external address) x (direct, wrapped by the same bridger, wrapped by a third account) x (first, repeat) for oracle-set, batch and bridge-call confirms; stored iff the signature verifies under the named oracle's key over the exact checkpoint, the bridger is that oracle's, the transaction signer is that bridger, and no confirm of that oracle exists. states = distinct checkpoints, transitions = confirm messages delivered",
 		Assumptions: []string{"signature recovery itself (secp256k1) is trusted", "the reference encoder covers static words, dynamic arrays and bytes as used by the three abi.encode calls"},
 		Jobs: func(tier string) []registry.Job {
-			return []registry.Job{{Name: "checkpoints+confirmations", Custom: run(tier == "thorough"), Shards: 2}}
+			if tier == "thorough" {
+				return []registry.Job{{Name: "checkpoints+confirmations-all-chains", Custom: run(true), Shards: 8}}
+			}
+			return []registry.Job{{Name: "checkpoints+confirmations", Custom: run(false), Shards: 2}}
 		},
 	})
 }
